@@ -679,7 +679,7 @@ pub fn run(ctx: &Ctx) {
         println!("INCONCLUSIVE property={}: cannot expand the standard library: {e}", ctx.id);
         std::process::exit(2);
     }
-    let mut n = ctx.scale(200, 10_000);
+    let mut n = ctx.scale(150, 10_000);
     if let Some(k) = std::env::var("VERIF_C25_CASES").ok().and_then(|x| x.parse().ok()) {
         n = k; // development aid
     }
